@@ -1619,6 +1619,7 @@ def link_and_check(spec, w, c, impl):
             else:
                 out["ldsem"] = "agree" if not fid[1] else "differ"
                 out["ldsem_compared"] = fid[0]
+                out["final_hyp"] = getattr(w.d, "last_final_hyp", None)
                 if fid[1]:
                     out["ldsem_diff"] = fid[1][:5]
         if bad:
